@@ -222,6 +222,7 @@ class Interp:
         self.live_heap = None
         self.live_ghost = None
         self.mm_lists = {}
+        self.iter_snaps = []
         if prefix:
             self.silent_until = len(prefix) - 1
             self.silent = True
@@ -412,6 +413,12 @@ class Interp:
             return VTuple([self.fresh(s, f"{label}_{i}") for i, s in enumerate(spec[1:])])
         if isinstance(spec, (list, tuple)) and spec and spec[0] == "list":
             return self.fresh_list(spec[1], label)
+        if spec == "lit_ctx":
+            from graphql.utilities.validate_input_value import ValidationContext as VC
+            items = [self.fresh("bool", "static"), self.fresh(("callback", "errs"), "on_error"),
+                     self.fresh("opt:ref:VariableValues", "variables"),
+                     self.fresh("opt:ref:FragmentVariableValues", "fragment_variable_values")]
+            return VTuple(items, names=list(VC._fields), cls=VC)
         if isinstance(spec, tuple) and spec and spec[0] == "callback":
             return VFunc(None, builtin="callback", name=label, recv=VConst(spec))
         if not isinstance(spec, str):
@@ -1300,6 +1307,9 @@ class Interp:
     def ev_Lambda(self, node):
         return VFunc(None, builtin="lambda", name="<lambda>", recv=VConst((node, dict(self.st.env))))
 
+    def ev_DictComp(self, node):
+        return self.world.dict_comprehension(self, node)
+
     def ev_ListComp(self, node):
         return self.world.comprehension(self, node)
 
@@ -1702,6 +1712,16 @@ class Interp:
             if name == "forall":
                 return VBool(z3.ForAll([bv], z3.Implies(rng, p)))
             return VBool(z3.Exists([bv], z3.And(rng, p)))
+        if name == "at_iter_start":
+            (e,) = node.args
+            snap = self.iter_snaps[-1]
+            saved_old = st.old
+            st.old = snap
+            try:
+                return self.spec_form(ast.Call(func=ast.Name(id="old", ctx=ast.Load()), args=[e],
+                                               keywords=[]))
+            finally:
+                st.old = saved_old
         if name == "old":
             (e,) = node.args
             if st.old is None:
@@ -1885,6 +1905,15 @@ class Interp:
         if isinstance(obj, VDict) and isinstance(key, VStr) and key.lit is not None:
             self.st.dicts[obj.oid][key.lit] = v
             return
+        if isinstance(obj, VDict) and isinstance(key, VStr):
+            # a local dict written with a computed key: from now on an abstract dict (contents
+            # unknown: reads give any value, the length any natural number >= 1)
+            self.st.ghost[("absdict", obj.oid)] = True
+            self.world.trusted_used.add("a local dict written with computed keys is abstracted "
+                                        "(reads give any value)")
+            return
+        if isinstance(obj, VDict) and self.st.ghost.get(("absdict", obj.oid)):
+            return
         if isinstance(obj, VList):
             L = self.st.lists[obj.oid]
             i = self.as_int(key, node)
@@ -2022,6 +2051,7 @@ class Interp:
 
     def assigned_in(self, body_nodes):
         names, attrs, calls = set(), set(), []
+        self._subscript_stored = set()
         for n in body_nodes:
             for x in ast.walk(n):
                 if isinstance(x, (ast.Assign, ast.AugAssign, ast.AnnAssign, ast.For)):
@@ -2034,6 +2064,10 @@ class Interp:
                                 attrs.add(y.attr)
                 elif isinstance(x, ast.NamedExpr):
                     names.add(x.target.id)
+                if isinstance(x, (ast.Assign, ast.AugAssign)):
+                    for t in (x.targets if isinstance(x, ast.Assign) else [x.target]):
+                        if isinstance(t, ast.Subscript) and isinstance(t.value, ast.Name):
+                            self._subscript_stored.add(t.value.id)
                 elif isinstance(x, ast.Call):
                     calls.append(x)
                 elif isinstance(x, ast.ExceptHandler) and x.name:
@@ -2044,6 +2078,10 @@ class Interp:
         names, attrs, calls = self.assigned_in(node.body + getattr(node, "orelse", []))
         names |= set(extra_names)
         st = self.st
+        for nm in getattr(self, "_subscript_stored", ()):
+            dv = st.env.get(nm)
+            if isinstance(dv, VDict):
+                st.ghost[("absdict", dv.oid)] = True   # written in the loop: contents unknown
         # declared element specs of local lists (contract.locals)
         c = self.contract if self.depth == 0 else None
         if c is not None:
@@ -2204,12 +2242,21 @@ class Interp:
             if not self.feasible():
                 raise _PathEnd()
             self.assign(node.target, seq.item(i), node)
+            self.iter_snaps.append(self.st.snapshot())
+            fell_through = True
             try:
-                self.exec_block(node.body)
-            except _Break:
-                return
-            except _Continue:
-                pass
+                try:
+                    self.exec_block(node.body)
+                except _Break:
+                    return
+                except _Continue:
+                    fell_through = False
+                if fell_through and lc and lc.get("step_post"):
+                    for clause in lc["step_post"]:
+                        g = self.spec_eval(clause, self.st.env, ref, extra={"_i": VInt(i)})
+                        self.oblige("STEP", f"loop {ordinal}: {clause}", g, self.cur_line)
+            finally:
+                self.iter_snaps.pop()
             self.check_invariants(lc, "INV-PRES", ordinal, ref, extra={"_i": VInt(i + 1)})
             raise _PathEnd()
         self.assume(i == n)
